@@ -24,7 +24,9 @@ EXPLANATION = (
     "|I| cos(theta), each step ends with an upper clip followed by the population-control shift "
     "e_estimate - 0.1*log(sum(final weights)/n_walkers)/dt. Factors must be real by construction "
     "(abs*cos, .real, exp(real)). COUNT-1: the killed-walker counter is zeroed by every entry point and "
-    "normalised by a product containing n_walkers and the lengths of all scans enclosing the increment."
+    "normalised by a product containing n_walkers and the lengths of all scans enclosing the increment. "
+    "GUARD-1: the block energy that feeds the population-control shift is normalised by the plain sum "
+    "of the stored weights (finite whenever a walker is alive). "
 )
 NOT_DECIDED = (
     "finiteness over long histories, NaN reachability in the CPMC propagators (they have no NaN guard), "
